@@ -68,6 +68,13 @@ func (R *Repository) AddCRL(crlLocations *core.CRLLocations, chains *core.Certif
 	if err != nil {
 		return false, err
 	}
+	if crlAdded {
+		//remember the locations, they are needed for the background load and for later updates
+		err = R.storeCRLLocationsIfNotLoaded(entry, crlLocations)
+		if err != nil {
+			return false, err
+		}
+	}
 	if R.crlConfig.CDPConfig.CRLFetchModeParsed == config.CRLFetchModeActively {
 		if R.isEntryLoaded(entry) == false {
 			return crlAdded, R.loadActively(entry, chains, crlLocations)
@@ -82,6 +89,15 @@ func (R *Repository) AddCRL(crlLocations *core.CRLLocations, chains *core.Certif
 		R.tryUpdateSignatureCertFromChain(entry, chains)
 	}
 	return crlAdded, nil
+}
+
+func (R *Repository) storeCRLLocationsIfNotLoaded(entry *Entry, crlLocations *core.CRLLocations) error {
+	entry.entryLock.Lock()
+	defer entry.entryLock.Unlock()
+	if entry.Loaded == false {
+		return entry.CRLStore.UpdateCRLLocations(crlLocations)
+	}
+	return nil
 }
 
 func (R *Repository) isEntryLoaded(entry *Entry) bool {
@@ -436,8 +452,10 @@ func (R *Repository) updateEntry(entry *Entry, err error, store crlstore.CRLStor
 		entry.CRLStore.Close()
 		//mark as empty in case someone already acquired the entry and waits for a lock
 		entry.CRLStore = nil
+		return err
 	}
-	return err
+	entry.Loaded = true
+	return nil
 }
 
 func (R *Repository) getStoredCertAsChain(oldStore crlstore.CRLStore) (*core.CertificateChains, error) {
